@@ -243,6 +243,11 @@ class Kernel:
         self.heap_order += 1
         heapq.heappush(self.heap, (self.now + max(0.0, delay), self.heap_order, "call", (fn, args)))
 
+    def schedule_at(self, t, fn, *args):
+        """Run fn(*args) in kernel context at absolute virtual time t (exact: keeps FIFO links FIFO)."""
+        self.heap_order += 1
+        heapq.heappush(self.heap, (max(t, self.now), self.heap_order, "call", (fn, args)))
+
     def block(self, key, timeout=None):
         """Block the current thread on `key`; returns the wake value or TIMEOUT."""
         cur = self.current
